@@ -584,6 +584,9 @@ def json_to_coords(json_doc: dict) -> Union[pdm.Coords, None]:
 
 def json_to_region_metadata(json_doc: dict):
     reading_order = get_json_element(json_doc, 'reading_order', default_value={})
+    if reading_order:
+        # JSON object keys are strings; the reading order is indexed by number
+        reading_order = {int(index): region_id for index, region_id in reading_order.items()}
     reading_order_attributes = get_json_element(json_doc, 'reading_order_attributes', default_value={})
     orientation = get_json_element(json_doc, 'orientation')
     return reading_order, reading_order_attributes, orientation
